@@ -123,4 +123,25 @@ theorem EncodeVarint_u64_eq_model (v : Int) (h0 : 0 ≤ v) (h1 : v < 2^64) :
     EncodeVarint_u64 10 v = some (true, (encVarint v.toNat).map Int.ofNat) :=
   encVarintFuel_u64 10 10 v (by omega) (by omega) h0 h1 (by omega)
 
+
+/-- the recursion limit of `DecodeVarintUnsigned<uint32_t>`: `max_depth = sizeof(T) + 1 + (sizeof(T) >> 3)` is the
+    model's `varintMaxDepth 32`, and the call fails exactly when `depth > max_depth` -/
+theorem DecodeVarintUnsigned_depthCheck_u32_eq_model (depth : Int) (h0 : 0 ≤ depth) (h1 : depth < 2^31) :
+    DecodeVarintUnsigned_depthCheck_u32 depth =
+      (if depth > (varintMaxDepth 32 : Nat) then some false else none, ((varintMaxDepth 32 : Nat) : Int)) := by
+  unfold DecodeVarintUnsigned_depthCheck_u32
+  have e : varintMaxDepth 32 = 5 := by decide
+  rw [e]
+  c_const
+  c_eq
+
+theorem DecodeVarintUnsigned_depthCheck_u64_eq_model (depth : Int) (h0 : 0 ≤ depth) (h1 : depth < 2^31) :
+    DecodeVarintUnsigned_depthCheck_u64 depth =
+      (if depth > (varintMaxDepth 64 : Nat) then some false else none, ((varintMaxDepth 64 : Nat) : Int)) := by
+  unfold DecodeVarintUnsigned_depthCheck_u64
+  have e : varintMaxDepth 64 = 10 := by decide
+  rw [e]
+  c_const
+  c_eq
+
 end Draco.Generated
